@@ -38,6 +38,71 @@ def last_position(p, recv):
 
 
 def run(ctx):
+    _run(ctx)
+    reader_seek_rule(ctx, ctx.facts("default"))
+    ctx.delegate("C14", ["C14.seek", "C14.one", "C14.end"], "C15.iter",
+                 "an iteration begun at a position yields exactly the records from there on: one index entry per item, a seek "
+                 "whenever the entry's offset differs from the tracked position, the end when the index is exhausted", floor=5)
+
+def reader_seek_rule(ctx, F):
+    """C15.R5: the complete reader's seek moves shapes and rows together or not at all"""
+    ctx.rule("C15.R5", "Reader::seek positions the shapes first and touches the attribute rows only once that succeeded, both with the "
+                       "index it was given: a refused seek (no index) leaves the pairs aligned", floor=2)
+    fs = F.inherent_method("reader::Reader", "seek")
+    adt = F.adts.get("reader::Reader")
+    if not fs or not adt:
+        ctx.missing("C15.R5", "Reader::seek")
+        return
+    flds = adt["variants"][0]["fields"]
+    shp = [x["name"] for x in flds if x["ty"].startswith("reader::ShapeReader<")]
+    dbf = [x["name"] for x in flds if x["ty"].startswith("dbase::")]
+    if len(shp) != 1 or len(dbf) != 1:
+        ctx.missing("C15.R5", "Reader: one ShapeReader field and one dbase reader field")
+        return
+    f = fs[0]
+    site = ctx.site_of(F, f["def"])
+    try:
+        ps = absint.Interp(F, inline=lambda g, t: False, fork_fallible=True).run(f)
+    except absint.Unanalysable as e:
+        ctx.unanalysable("C15.R5", "Reader::seek", str(e))
+        return
+
+    def side(e):
+        a0 = absint.term_str(e[3][0]) if e[3] else ''
+        if ('.' + shp[0]) in a0:
+            return 'shapes'
+        if ('.' + dbf[0]) in a0:
+            return 'rows'
+        return None
+    okp, okf, n_ok, n_fail = True, True, 0, 0
+    desc = set()
+    for p in ps:
+        if p.status != 'return':
+            okp = False
+            desc.add("a path does not return (%s)" % p.status)
+            continue
+        calls = [(side(e), e) for e in p.eff if e[0] == 'call' and side(e)]
+        order = [s_ for s_, _ in calls]
+        same_index = all(len(e[3]) >= 2 and e[3][1] == ('param', 2) for _, e in calls)
+        shape_failed = any(s_ == 'shapes' and absint.is_agg(e[-1], None, 'Err') for s_, e in calls) or \
+            (order == ['shapes'] and is_agg(p.ret, None, 'Err'))
+        if is_agg(p.ret, None, 'Ok'):
+            n_ok += 1
+            if order != ['shapes', 'rows'] or not same_index:
+                okp = False
+                desc.add("a successful seek performs %s%s" % (order, "" if same_index else " with different indices"))
+        else:
+            n_fail += 1
+            if order and order[0] != 'shapes':
+                okf = False
+                desc.add("the rows are moved before the shapes: a refused shape seek leaves rows moved (%s)" % order)
+    ctx.ob("C15.R5", "success path", okp and n_ok >= 1, "; ".join(sorted(desc)) or "seek(shapes, i) then seek(rows, i)", site=site,
+           key="C15.R5|success")
+    ctx.ob("C15.R5", "refusal path", okf and n_fail >= 1, "; ".join(sorted(desc)) or
+           "every failing path starts with the shape seek: when it is refused nothing else has moved", site=site, key="C15.R5|refusal")
+
+
+def _run(ctx):
     F = ctx.facts("default")
     OFFSET_FIELD[0] = util.index_entry_fields(F)[0]
     if not OFFSET_FIELD[0]:
